@@ -130,6 +130,8 @@ def impl(op: str) -> str:
         blob = b"\0\0\0\0" + b"\x00" + b"\0\0\0\0" + b"\0\0\0\0" + b"\x07" * 32 + sec
         node = (net.keys.bip49_deserialize if a[2] == "bip49" else net.keys.bip84_deserialize)(blob)
         return show_addr(_quiet(node.address))
+    if k == "c08history":
+        return _history(text_of(a[1]), a[2], fresh=False)
     if k == "c08keyseq":
         key = _make_key(NETS[a[1]], a[2], int(a[3]), a[4] == "1", a[5] == "1")
         outs = []
@@ -149,6 +151,62 @@ def impl(op: str) -> str:
         r = _quiet(NETS["btc"].script.compile, text_of(a[1]))
         return "err " + r[1] if r[0] == "err" else "ok " + hx(r[1])
     return "bad-op"
+
+
+def _history(text, steps, fresh):
+    """`net:entry` calls in turn on ONE parseable_str object (fresh=False) or each on a new plain str (fresh=True)"""
+    from pycoin.networks.parseable_str import parseable_str
+    from props import c18 as _c18
+    ps = parseable_str(text)
+    outs = []
+    for st in steps.split(","):
+        name, entry = st.split(":")
+        net = NETS[name]
+        r = _quiet(_c18.entry_f(net, entry), text if fresh else ps)
+        outs.append("err " + r[1] if r[0] == "err" else "ok None" if r[1] is None else "ok " + _c18.show_obj(net, r[1]))
+    return "ok " + " | ".join(outs)
+
+
+SAME_NAME = {}
+for _k, _n in NETS.items():
+    SAME_NAME.setdefault(_n.network_name, []).append(_k)
+SAME_NAME = {k: v for k, v in SAME_NAME.items() if len(v) > 1}
+
+
+def gen_history(ctx, emit, op, entries):
+    """all ordered pairs of same-named networks (both orders come from the pairs being ordered), texts made on either of
+    them, plus sampled other pairs and longer mixed sequences"""
+    rng = ctx.rng
+
+    def texts_of(name):
+        net = NETS[name]
+        out = []
+        h20, h32 = bytes(rng.randrange(256) for _ in range(20)), bytes(rng.randrange(256) for _ in range(32))
+        for kind, h in (("p2pkh", h20), ("p2sh", h20), ("p2pkh_wit", h20), ("p2sh_wit", h32), ("p2tr", h32)):
+            r = _quiet(getattr(net.address, "for_" + kind), h)
+            if r[0] == "ok" and r[1]:
+                out.append(r[1])
+        k = net.keys.private(rng.randrange(1, 2 ** 200))
+        node = net.keys.bip32_seed(b"history-%d" % rng.randrange(100))
+        for f in (k.wif, lambda: node.hwif(as_private=True), node.hwif):
+            r = _quiet(f)
+            if r[0] == "ok" and r[1]:
+                out.append(r[1])
+        return out
+
+    names = [n for n in NAMES if n not in GRS]
+    pairs = [(a, b) for g in SAME_NAME.values() for a in g for b in g if a != b and a not in GRS and b not in GRS]
+    pairs += [tuple(rng.sample(names, 2)) for _ in range(ctx.n(25, 400))]
+    for a, b in pairs:
+        for text in texts_of(a) + texts_of(b):
+            for e in entries if len(entries) <= 2 else rng.sample(entries, ctx.n(2, 4)):
+                emit("%s %s %s:%s,%s:%s" % (op, th(text), a, e, b, e))
+    for _ in range(ctx.n(60, 1500)):
+        g = rng.choice(list(SAME_NAME.values())) if rng.random() < 0.6 else rng.sample(names, 3)
+        g = [n for n in g if n not in GRS] or ["btc"]
+        text = rng.choice(texts_of(rng.choice(g)))
+        steps = ["%s:%s" % (rng.choice(g), rng.choice(entries)) for _ in range(rng.randint(2, 6))]
+        emit("%s %s %s" % (op, th(text), ",".join(steps)))
 
 
 def _make_key(net, kind, se, private, flag):
@@ -256,6 +314,12 @@ def _oracle(op: str, out: str):
         rebuilt = out.split("rebuilt=")[1]
         if rebuilt != hx(script):
             return "script classified %s but rebuilding gives different bytes" % out[3:].split(":")[0]
+    if k == "c08history":
+        want = _history(text_of(a[1]), a[2], fresh=True)
+        if want != out:
+            got, exp = out[3:].split(" | "), want[3:].split(" | ")
+            i = next((j for j in range(min(len(got), len(exp))) if got[j] != exp[j]), 0)
+            return "a parser's answer on a shared parseable_str differs from its answer on a fresh string (call %d of %s)" % (i + 1, a[2])
     if k == "c08keyseq" and out.startswith("ok "):
         net, kind, flag = NETS[a[1]], a[2], a[5] == "1"
         secs = {True: unhx(a[6]), False: unhx(a[7])}
@@ -478,6 +542,8 @@ def _gen(ctx, emit):
     for m, n in ((1, 1), (2, 3), (0, 0), (1, 0), (3, 2), (15, 16), (16, 16), (17, 17), (1, 20)):
         emit("c08forinfo multisig:%d:%s" % (m, "/".join(hx(b"\x02" + rb(32)) for _ in range(n)) or "~"))
     emit("c08forinfo multisig:1:-/%s" % hx(rb(33)))
+    # 8. one parseable_str object through several networks' address parsers
+    gen_history(ctx, emit, "c08history", ["address", "p2pkh", "p2sh", "p2pkh_segwit", "p2tr"])
     # 7. key objects over time: every cached attribute and copying method, in random orders
     step_names = ["hash160", "fingerprint", "address", "sec"]
     def steps_random(n):
